@@ -278,6 +278,12 @@ class OutgoingRIB(Cache):
         # Update cache to remove the announced route
         self.update_cache_withdraw(nlri)
 
+        # a resend (route refresh, 'flush adj-rib out') asked for before this withdraw holds the route as it
+        # was then: sending it again would announce a withdrawn route - and on the first batch of a
+        # session, where the withdraws are not put on the wire, nothing would take it back
+        if self._refresh_routes:
+            self._refresh_routes = [route for route in self._refresh_routes if route.index() != route_index]
+
     def add_to_resend(self, route: Route) -> None:
         if not self.enabled:
             return
